@@ -7,10 +7,16 @@
 // Case line:  case id cfg threads actions  obs
 //
 //	cfg      st=X|M;life=<s>;keep=all|a|m|am;split=0|1;t0=<unix s at case start>
-//	         st: X = injected storage + injected locker (yield points, faults), M = the built-in ones
+//	         st: X = injected storage + injected locker (yield points, faults), M = the built-in ones,
+//	         F = as X plus the three yield points inside the real MemoryLock (verif hook in locker.go)
 //	         keep: KeepResponseHeaders nil / [X-A] / [X-M, Set-Cookie] / [x-a, X-M, X-C, Set-Cookie] / e = empty
 //	         non-nil list (configDefault turns it into nil = keep all)
 //	         st=M with life=1800 and keep=all is idempotency.New() without any Config (ConfigDefault path)
+//	         optional nx=1: custom Config.Next (steps aside for DELETE and OPTIONS only, so GET/HEAD/TRACE with a
+//	         key go through the middleware); kh=1: custom Config.KeyHeader "Idem-Key" (every request then also
+//	         carries a valid X-Idempotency-Key that must be ignored); kv=1: custom Config.KeyHeaderValidate
+//	         (at least 36 characters: the 37-character key `?` is valid and a key of its own)
+//	         keep c = [Content-Type], ac = [X-A, content-type]
 //	threads  method:key:status:body:hdrs:err , ...
 //	         method G|H|O|T (safe: GET, HEAD, OPTIONS, TRACE) | P|D|U|A (POST, DELETE, PUT, PATCH); key - (no header) | ! (too short) | ? (too long) | one letter
 //	         body 0|1 (empty / "body<t>"); hdrs 0..4 (response header preset); err 1 = handler returns an error
@@ -18,7 +24,9 @@
 //	         does not release the lock) | c<t> (release a pending Get and return bytes that do not unmarshal) | t<d> , ...
 //	obs      <pos after action 1>,...|<result thread 0>,...
 //	         pos: - unstarted, G/S parked at Storage.Get/Set, L/U parked at Locker.Lock/Unlock, H parked
-//	              in the handler, B blocked inside MemoryLock, D done, P panicked
+//	              in the handler, B blocked inside MemoryLock, D done, P panicked; st=F only: a parked in
+//	              MemoryLock.Lock between the block under l.mu (locked++) and lock.mu.Lock(), u parked in
+//	              MemoryLock.Unlock before lock.mu.Unlock(), d parked behind it (before locked-- / delete)
 //	         result = status:ran:class:bodyhex:hdrs   class = ok | E<where> ; hdrs = name=valuehex;... of the
 //	              watched response headers in wire order
 package main
@@ -51,6 +59,9 @@ type cfgIn struct {
 	keep  string
 	split bool
 	t0    uint32
+	nx    bool // custom Next
+	kh    bool // custom KeyHeader
+	kv    bool // custom KeyHeaderValidate
 }
 
 type thrIn struct {
@@ -61,7 +72,11 @@ type thrIn struct {
 }
 
 func (c cfgIn) String() string {
-	return fmt.Sprintf("st=%s;life=%d;keep=%s;split=%s;t0=%d", c.st, c.life, c.keep, gen.B(c.split), c.t0)
+	s := fmt.Sprintf("st=%s;life=%d;keep=%s;split=%s;t0=%d", c.st, c.life, c.keep, gen.B(c.split), c.t0)
+	if c.nx || c.kh || c.kv {
+		s += fmt.Sprintf(";nx=%s;kh=%s;kv=%s", gen.B(c.nx), gen.B(c.kh), gen.B(c.kv))
+	}
+	return s
 }
 
 func parseCfg(s string) (c cfgIn, ok bool) {
@@ -79,13 +94,19 @@ func parseCfg(s string) (c cfgIn, ok bool) {
 		}
 	}
 	c.st, c.keep, c.split = kv["st"], kv["keep"], kv["split"] == "1"
+	for _, k := range []string{"nx", "kh", "kv"} {
+		if v, ok := kv[k]; ok && v != "0" && v != "1" {
+			return c, false
+		}
+	}
+	c.nx, c.kh, c.kv = kv["nx"] == "1", kv["kh"] == "1", kv["kv"] == "1"
 	var err error
 	c.life, err = strconv.Atoi(kv["life"])
-	if err != nil || c.life < 1 || c.life > 100000 || (c.st != "X" && c.st != "M") {
+	if err != nil || c.life < 1 || c.life > 100000 || (c.st != "X" && c.st != "M" && c.st != "F") {
 		return c, false
 	}
 	switch c.keep {
-	case "all", "a", "m", "am", "e":
+	case "all", "a", "m", "am", "e", "c", "ac":
 	default:
 		return c, false
 	}
@@ -116,7 +137,7 @@ func parseThreads(s string) ([]thrIn, bool) {
 		st, e1 := strconv.Atoi(f[2])
 		b, e2 := strconv.Atoi(f[3])
 		h, e3 := strconv.Atoi(f[4])
-		if e1 != nil || e2 != nil || e3 != nil || st < 200 || st > 599 || b < 0 || b > 1 || h < 0 || h > 4 {
+		if e1 != nil || e2 != nil || e3 != nil || st < 200 || st > 599 || b < 0 || b > 1 || h < 0 || h > 6 {
 			return nil, false
 		}
 		k := f[1]
@@ -222,6 +243,8 @@ func (l *locker) Unlock(key string) error {
 // ---- running one case -----------------------------------------------------------------------------
 
 type caseRun struct {
+	id      string // case id and index (for the crash journal)
+	idx     int
 	cfg     cfgIn
 	th      []thrIn
 	s       *Sched
@@ -231,7 +254,7 @@ type caseRun struct {
 	pos     []string
 }
 
-var watched = []string{"X-A", "X-M", "X-C", "Set-Cookie"}
+var watched = []string{"X-A", "X-M", "X-C", "Set-Cookie", "Content-Type"}
 
 func keepList(k string) []string {
 	switch k {
@@ -243,6 +266,10 @@ func keepList(k string) []string {
 		return []string{"x-a", "X-M", "X-C", "Set-Cookie"}
 	case "e":
 		return []string{}
+	case "c":
+		return []string{"Content-Type"}
+	case "ac":
+		return []string{"X-A", "content-type"}
 	}
 	return nil
 }
@@ -263,6 +290,11 @@ func setHeaders(c fiber.Ctx, preset, t int) {
 		c.Response().Header.Add("Set-Cookie", "s="+v+"; Path=/")
 		c.Response().Header.Add("Set-Cookie", "u=1,2; Path=/")
 		c.Set("X-A", "w"+v)
+	case 5:
+		c.Set("Content-Type", "application/x-custom")
+		c.Set("X-A", "t"+v)
+	case 6:
+		c.Set("Content-Type", "application/json; charset=utf-8")
 	}
 }
 
@@ -290,12 +322,30 @@ func newCase(c cfgIn, th []thrIn) *caseRun {
 	cr := &caseRun{cfg: c, th: th, s: NewSched(len(th)), res: make([]string, len(th))}
 	cr.cfg.t0 = utils.Timestamp()
 	ic := idempotency.Config{Lifetime: time.Duration(c.life) * time.Second, KeepResponseHeaders: keepList(c.keep)}
-	if c.st == "X" {
+	idempotency.VerifYield = nil
+	if c.st == "F" {
+		idempotency.VerifYield = func(point byte, _ string) { cr.s.Park(point) }
+	}
+	if c.st == "X" || c.st == "F" {
 		ic.Storage = &store{s: cr.s, m: map[string]ent{}}
 		ic.Lock = &locker{s: cr.s, real: idempotency.NewMemoryLock()}
 	}
+	if c.nx {
+		ic.Next = func(c fiber.Ctx) bool { return c.Method() == fiber.MethodDelete || c.Method() == fiber.MethodOptions }
+	}
+	if c.kh {
+		ic.KeyHeader = "Idem-Key"
+	}
+	if c.kv {
+		ic.KeyHeaderValidate = func(k string) error {
+			if len(k) < 36 {
+				return fmt.Errorf("%w: shorter than 36", idempotency.ErrInvalidIdempotencyKey)
+			}
+			return nil
+		}
+	}
 	app := fiber.New(fiber.Config{EnableSplittingOnParsers: c.split})
-	if c.st == "M" && c.life == 1800 && c.keep == "all" {
+	if c.st == "M" && c.life == 1800 && c.keep == "all" && !c.nx && !c.kh && !c.kv {
 		app.Use(idempotency.New()) // ConfigDefault: 30 min, keep all
 	} else {
 		app.Use(idempotency.New(ic))
@@ -330,8 +380,13 @@ func (cr *caseRun) body(t int) func() {
 		var req fasthttp.Request
 		req.Header.SetMethod(methods[cr.th[t].method])
 		req.SetRequestURI("/")
+		keyHeader := "X-Idempotency-Key"
+		if cr.cfg.kh {
+			keyHeader = "Idem-Key"
+			req.Header.Set("X-Idempotency-Key", keyValue("z")) // not the configured header: must be ignored
+		}
 		if k := keyValue(cr.th[t].key); k != "" {
-			req.Header.Set("X-Idempotency-Key", k)
+			req.Header.Set(keyHeader, k)
 		}
 		fctx.Init(&req, nil, nil)
 		cr.h(&fctx)
@@ -339,10 +394,15 @@ func (cr *caseRun) body(t int) func() {
 		cr.s.mu.Lock()
 		ran := cr.s.th[t].extra != nil
 		cr.s.mu.Unlock()
+		body := string(fctx.Response.Body())
+		cls := classify(fctx.Response.StatusCode(), body)
 		type hv struct{ n, v string }
 		var hs []hv
 		rh.VisitAll(func(k, v []byte) {
 			for _, w := range watched {
+				if w == "Content-Type" && cls != "ok" {
+					continue // an error answer is rendered by fiber's error handler (text/plain); its body is not compared either
+				}
 				if strings.EqualFold(string(k), w) {
 					hs = append(hs, hv{w, string(v)})
 				}
@@ -358,8 +418,6 @@ func (cr *caseRun) body(t int) func() {
 			}
 			hl = strings.Join(parts, ";")
 		}
-		body := string(fctx.Response.Body())
-		cls := classify(fctx.Response.StatusCode(), body)
 		if cls != "ok" {
 			body = ""
 		}
@@ -367,10 +425,43 @@ func (cr *caseRun) body(t int) func() {
 	}
 }
 
+// journal writes what is known about the running case before an action is carried out. A mutated
+// MemoryLock can die with a Go runtime fatal error ("sync: unlock of unlocked mutex") that no recover()
+// catches: the parent process then turns the journal into a case line whose unfinished requests have
+// the result "panic" (they were never answered) and goes on behind that case.
+func (cr *caseRun) journal(next string) {
+	if journalPath == "" {
+		return
+	}
+	acts := append(append([]string(nil), cr.actions...), next)
+	res := make([]string, len(cr.res))
+	p := cr.s.Pos()
+	for i := range res {
+		res[i] = "panic"
+		if p[i] == 'D' && cr.res[i] != "" {
+			res[i] = cr.res[i]
+		}
+	}
+	line := strings.Join([]string{strconv.Itoa(cr.idx), cr.id, cr.cfg.String(), threadsString(cr.th), strings.Join(acts, ","),
+		strings.Join(cr.pos, ","), p, strings.Join(res, ",")}, "\t")
+	if journalFile == nil {
+		journalFile, _ = os.Create(journalPath)
+	}
+	if journalFile != nil {
+		_, _ = journalFile.WriteAt([]byte(line+"\n"), 0) // one write; whatever follows the first newline is stale
+	}
+}
+
+var (
+	journalPath string
+	journalFile *os.File
+)
+
 func (cr *caseRun) do(a string) bool {
 	if len(a) < 2 {
 		return false
 	}
+	cr.journal(a)
 	n, err := strconv.Atoi(a[1:])
 	if err != nil || n < 0 {
 		return false
@@ -457,16 +548,22 @@ func (cr *caseRun) finish(w *gen.Writer, id string) {
 // ---- generation -----------------------------------------------------------------------------------
 
 func genCfg(r *gen.Rand) cfgIn {
-	c := cfgIn{st: "X", life: gen.Pick(r, []int{2, 3, 5, 10, 1800}), keep: gen.Pick(r, []string{"all", "all", "a", "m", "am", "am", "e"})}
-	if r.Chance(1, 6) {
+	c := cfgIn{st: "X", life: gen.Pick(r, []int{2, 3, 5, 10, 1800}), keep: gen.Pick(r, []string{"all", "all", "a", "m", "am", "am", "e", "c", "ac"})}
+	switch r.Intn(12) {
+	case 0, 1:
 		c.st = "M"
+	case 2, 3, 4, 5, 6:
+		c.st = "F"
 	}
 	c.split = r.Chance(1, 4)
+	if r.Chance(1, 4) {
+		c.nx, c.kh, c.kv = r.Bool(), r.Bool(), r.Bool()
+	}
 	return c
 }
 
 func genThread(r *gen.Rand) thrIn {
-	t := thrIn{method: "P", key: "a", status: gen.Pick(r, []int{200, 200, 201, 204, 404, 500}), body: r.Intn(2), hdrs: r.Intn(5)}
+	t := thrIn{method: "P", key: "a", status: gen.Pick(r, []int{200, 200, 201, 204, 404, 500}), body: r.Intn(2), hdrs: r.Intn(7)}
 	switch r.Intn(12) {
 	case 0:
 		t.method = gen.Pick(r, []string{"G", "G", "H", "O", "T"})
@@ -487,7 +584,7 @@ func genThread(r *gen.Rand) thrIn {
 	return t
 }
 
-func runGenerated(w *gen.Writer, id string, r *gen.Rand) {
+func runGenerated(w *gen.Writer, id string, idx int, r *gen.Rand) {
 	c := genCfg(r)
 	n := 2 + r.Intn(5)
 	var th []thrIn
@@ -495,6 +592,7 @@ func runGenerated(w *gen.Writer, id string, r *gen.Rand) {
 		th = append(th, genThread(r))
 	}
 	cr := newCase(c, th)
+	cr.id, cr.idx = id, idx
 	w.Count("st=" + c.st)
 	faultP := gen.Pick(r, []int{0, 0, 1, 3}) // out of 20 per release
 	next := 0
@@ -546,7 +644,7 @@ func runGenerated(w *gen.Writer, id string, r *gen.Rand) {
 	cr.finish(w, id)
 }
 
-func runReplay(w *gen.Writer, f []string) {
+func runReplay(w *gen.Writer, f []string, idx int) {
 	if len(f) < 4 {
 		return
 	}
@@ -556,6 +654,7 @@ func runReplay(w *gen.Writer, f []string) {
 		return
 	}
 	cr := newCase(c, th)
+	cr.id, cr.idx = f[0], idx
 	if f[3] != "-" {
 		acts := strings.Split(f[3], ",")
 		if len(acts) > 5000 {
@@ -574,42 +673,118 @@ func main() {
 	log.SetOutput(io.Discard)
 	debug.SetGCPercent(-1) // see c13: the background sweeper can live-lock under faketime
 	o := gen.ParseFlags()
-	if os.Getenv("C17_CHILD") == "" && (o.Replay == "" && o.N > chunk) {
-		parent(o)
+	child := os.Getenv("C17_CHILD")
+	if child == "" {
+		// every case runs in a child process: a fatal runtime error costs one case, not the run
+		total := o.N
+		if o.Replay != "" {
+			total = len(gen.ReplayInputs(o.Replay))
+		}
+		parent(o, total)
 		return
 	}
+	lo, hi := 0, 0
+	fmt.Sscanf(child, "%d:%d", &lo, &hi)
+	journalPath = o.Out + ".journal"
 	utils.StartTimeStampUpdater()
 	time.Sleep(500 * time.Millisecond)
 	w := gen.NewWriter(o.Out)
 	defer w.Close()
 	if o.Replay != "" {
-		for _, f := range gen.ReplayInputs(o.Replay) {
-			runReplay(w, f)
+		for i, f := range gen.ReplayInputs(o.Replay) {
+			if i >= lo && i < hi {
+				runReplay(w, f, i)
+			}
 		}
 		return
 	}
-	lo, hi := 0, o.N
-	if v := os.Getenv("C17_CHILD"); v != "" {
-		fmt.Sscanf(v, "%d:%d", &lo, &hi)
-	}
 	root := gen.New(o.Seed)
 	for i := lo; i < hi; i++ {
-		runGenerated(w, fmt.Sprintf("s%d.%d", o.Seed, i), root.Fork(uint64(i)))
+		runGenerated(w, fmt.Sprintf("s%d.%d", o.Seed, i), i, root.Fork(uint64(i)))
 	}
 }
 
-func parent(o gen.Opts) {
+// crashLine turns the journal of a child that died into the case line of the case it died in.
+func crashLine(journal string) (idx int, line string, ok bool) {
+	if i := strings.IndexByte(journal, '\n'); i >= 0 {
+		journal = journal[:i]
+	}
+	f := strings.Split(journal, "\t")
+	if len(f) != 8 {
+		return 0, "", false
+	}
+	idx, err := strconv.Atoi(f[0])
+	if err != nil {
+		return 0, "", false
+	}
+	// positions after the fatal action: whoever was under way is gone
+	last := []byte(f[6])
+	for i, c := range last {
+		if c != '-' && c != 'D' {
+			last[i] = 'P'
+		}
+	}
+	poss := string(last)
+	if f[5] != "" {
+		poss = f[5] + "," + poss
+	}
+	return idx, strings.Join([]string{"case", f[1], f[2], f[3], f[4], poss + "|" + f[7]}, "\t"), true
+}
+
+var partSeq struct {
+	sync.Mutex
+	n int
+}
+
+// runRange runs the cases lo..hi-1 in a child process and returns its lines; when the child dies the
+// cases before the fatal one are run again (the buffered output of the dead child is lost), the fatal
+// case is reported from the journal, and the rest follows.
+func runRange(o gen.Opts, lo, hi, budget int) ([]string, bool) {
+	if lo >= hi {
+		return nil, true
+	}
+	partSeq.Lock()
+	partSeq.n++
+	part := fmt.Sprintf("%s.part%d", o.Out, partSeq.n)
+	partSeq.Unlock()
+	args := []string{"-seed", strconv.FormatUint(o.Seed, 10), "-n", strconv.Itoa(o.N), "-tier", o.Tier, "-out", part}
+	if o.Replay != "" {
+		args = append(args, "-replay", o.Replay)
+	}
+	cmd := exec.Command(os.Args[0], args...)
+	cmd.Env = append(os.Environ(), fmt.Sprintf("C17_CHILD=%d:%d", lo, hi))
+	err := cmd.Run()
+	data, _ := os.ReadFile(part)
+	jr, jerr := os.ReadFile(part + ".journal")
+	os.Remove(part)
+	os.Remove(part + ".journal")
+	if err == nil {
+		return strings.Split(string(data), "\n"), true
+	}
+	idx, line, ok := crashLine(string(jr))
+	if jerr != nil || !ok || idx < lo || idx >= hi || budget <= 0 {
+		return nil, false
+	}
+	before, ok1 := runRange(o, lo, idx, budget-1)
+	after, ok2 := runRange(o, idx+1, hi, budget-1)
+	if !ok1 || !ok2 {
+		return nil, false
+	}
+	return append(append(before, line, "dist\t{\"crashed\":1}"), after...), true
+}
+
+func parent(o gen.Opts, total int) {
 	type job struct{ lo, hi int }
 	var jobs []job
-	for lo := 0; lo < o.N; lo += chunk {
+	for lo := 0; lo < total; lo += chunk {
 		hi := lo + chunk
-		if hi > o.N {
-			hi = o.N
+		if hi > total {
+			hi = total
 		}
 		jobs = append(jobs, job{lo, hi})
 	}
-	outs := make([]string, len(jobs))
-	errs := make([]error, len(jobs))
+	outs := make([][]string, len(jobs))
+	oks := make([]bool, len(jobs))
 	sem := make(chan struct{}, 12)
 	var wg sync.WaitGroup
 	for i, j := range jobs {
@@ -618,10 +793,7 @@ func parent(o gen.Opts) {
 		go func(i int, j job) {
 			defer wg.Done()
 			defer func() { <-sem }()
-			outs[i] = fmt.Sprintf("%s.part%d", o.Out, i)
-			cmd := exec.Command(os.Args[0], "-seed", strconv.FormatUint(o.Seed, 10), "-n", strconv.Itoa(o.N), "-tier", o.Tier, "-out", outs[i])
-			cmd.Env = append(os.Environ(), fmt.Sprintf("C17_CHILD=%d:%d", j.lo, j.hi))
-			errs[i] = cmd.Run()
+			outs[i], oks[i] = runRange(o, j.lo, j.hi, 40)
 		}(i, j)
 	}
 	wg.Wait()
@@ -630,22 +802,17 @@ func parent(o gen.Opts) {
 		os.Exit(2)
 	}
 	dist := map[string]int{}
-	for i, p := range outs {
-		if errs[i] != nil {
+	for i, lines := range outs {
+		if !oks[i] {
 			os.Exit(3)
 		}
-		data, err := os.ReadFile(p)
-		if err != nil {
-			os.Exit(3)
-		}
-		for _, l := range strings.Split(string(data), "\n") {
+		for _, l := range lines {
 			if strings.HasPrefix(l, "case\t") {
 				out.WriteString(l + "\n")
 			} else if strings.HasPrefix(l, "dist\t") {
 				mergeDist(dist, l[5:])
 			}
 		}
-		os.Remove(p)
 	}
 	out.WriteString("dist\t" + distJSON(dist) + "\n")
 	out.Close()
